@@ -171,6 +171,24 @@ fn fs_scenario(args: &ShardArgs, rng: &mut Rng, rep: &mut Report, i: usize) {
 						ops.push(("write".into(), f));
 					}
 				}
+				3 if rng.chance(1, 3) => {
+					// across the edge of the watched tree: out of it (only the "from" half is reported) or into it
+					let outside = root.join("outside");
+					std::fs::create_dir_all(&outside).ok();
+					if rng.chance(1, 2) {
+						let f = rng.pick(&files).clone();
+						if f.exists() && std::fs::rename(&f, outside.join(format!("out{k}.txt"))).is_ok() {
+							ops.push(("move-out".into(), f));
+						}
+					} else {
+						let src = outside.join(format!("in{k}.txt"));
+						let to = d.join(format!("in{k}.txt"));
+						if std::fs::write(&src, "x").is_ok() && std::fs::rename(&src, &to).is_ok() {
+							files.push(to.clone());
+							ops.push(("move-in".into(), to));
+						}
+					}
+				}
 				3 => {
 					let f = rng.pick(&files).clone();
 					if f.exists() {
@@ -265,6 +283,7 @@ fn fs_scenario(args: &ShardArgs, rng: &mut Rng, rep: &mut Report, i: usize) {
 	rep.count("fs_notify_events_stamped", stamped.len() as u64);
 	rep.count("fs_events_delivered", delivered.values().sum::<usize>() as u64);
 	rep.count("fs_operations", ops_done.len() as u64);
+	rep.count("fs_moves_across_the_edge_of_the_watched_tree", ops_done.iter().filter(|(o, _)| o.starts_with("move-")).count() as u64);
 	rep.count(if poll { "fs_scenarios_poll" } else { "fs_scenarios_native" }, 1);
 	let mut h = Fnv::default();
 	for (_, _, k) in &stamped {
